@@ -38,6 +38,7 @@ type Scenario struct {
 	FailThr        string      `json:"failureThreshold,omitempty"`
 	MaxSurge       string      `json:"maxSurge,omitempty"`
 	MaxUnav        string      `json:"maxUnavailable,omitempty"`
+	MinReady       int         `json:"minReadySeconds,omitempty"`
 	Events         []UserEvent `json:"events"`
 	AutoApprove    bool        `json:"autoApprove"`
 	V2Fails        bool        `json:"v2Fails"`
@@ -166,6 +167,7 @@ func (sc *Scenario) buildWorkload() client.Object {
 		d.Spec.Strategy.RollingUpdate.MaxUnavailable = &mu
 		pds := int32(600)
 		d.Spec.ProgressDeadlineSeconds = &pds
+		d.Spec.MinReadySeconds = int32(sc.MinReady)
 		return d
 	}
 }
